@@ -284,9 +284,8 @@ structure Ev where
   /-- CreateOffer in have-remote-offer (outside C09's quantifier only) -/
   misuse : Bool := false
 
-/-- SetRemoteDescription changed the state although it may have returned an error afterwards -/
-def remoteApplied (res : String) : Bool :=
-  res == "ok" || res == "err:ice" || res == "err:fingerprint" || res == "err:nomid"
+/-- SetRemoteDescription applied the description (since 55c599d a rejected description changes nothing) -/
+def remoteApplied (res : String) : Bool := res == "ok"
 
 def keyList (d : Desc) : List (Option Mid × String) := d.secs.map fun s => (s.mid, s.media.toLower)
 
